@@ -757,6 +757,35 @@ def rule_EX(run: Run) -> RuleResult:
     rets = [r for r in astu.walk_no_nested(ex) if isinstance(r, ast.Return) and r.value is not None and not (isinstance(r.value, ast.Constant) and r.value.value in (None, False))]
     res.add("labrea.runtime.Runtime.__exit__:never returns a truthy value", not rets, m.relpath, ex.lineno,
             "no return value" if not rets else f"returns {ast.unparse(rets[0].value)}", nec)
+    # ... and no other context manager of the library hands back, as the verdict on the exception in flight, a value it did not decide
+    # itself: `return self.request.run()` makes the handler's return value swallow the failure of the block (C12: a failed evaluation
+    # then yields None, which a cache above stores).  A verdict is a constant, or a test (comparison, isinstance, not/and/or of tests)
+    def _verdict(v, fn_) -> bool:
+        if v is None or isinstance(v, ast.Constant) or isinstance(v, ast.Compare):
+            return True
+        if isinstance(v, ast.UnaryOp) and isinstance(v.op, ast.Not):
+            return True
+        if isinstance(v, ast.BoolOp):
+            return all(_verdict(x, fn_) for x in v.values)
+        if isinstance(v, ast.Call) and isinstance(v.func, ast.Name) and v.func.id in ("isinstance", "issubclass", "bool"):
+            return v.func.id != "bool" or (len(v.args) == 1 and _verdict(v.args[0], fn_))
+        if isinstance(v, ast.Call) and isinstance(v.func, ast.Attribute) and v.func.attr == "__exit__":
+            return True         # the verdict of another context manager of the library (held to this rule itself)
+        if isinstance(v, ast.Name):
+            binds = [a_ for a_ in astu.walk_no_nested(fn_) if isinstance(a_, ast.Assign) and any(isinstance(t_, ast.Name) and t_.id == v.id for t_ in a_.targets)]
+            others = [a_ for a_ in astu.walk_no_nested(fn_) if isinstance(a_, (ast.AugAssign, ast.AnnAssign, ast.NamedExpr, ast.For, ast.With)) and any(
+                isinstance(z_, ast.Name) and z_.id == v.id and isinstance(z_.ctx, ast.Store) for z_ in ast.walk(a_))]
+            return bool(binds) and not others and all(_verdict(a_.value, fn_) for a_ in binds)
+        return False
+    for ci_ in run.repo.classes.values():
+        if ci_.module.name.startswith("labrea.mypy") or ci_ is rt:
+            continue
+        xfn = ci_.methods.get("__exit__")
+        if xfn is None:
+            continue
+        bad_ = [r for r in astu.walk_no_nested(xfn) if isinstance(r, ast.Return) and not _verdict(r.value, xfn)]
+        res.add(f"{ci_.qualname}.__exit__:never returns a value it did not decide itself", not bad_, ci_.module.relpath, (bad_[0] if bad_ else xfn).lineno,
+                "returns constants / tests only" if not bad_ else f"returns {ast.unparse(bad_[0].value)[:60]}: whatever that yields decides whether the exception of the block is swallowed", nec)
     ps = [p for p in _fn_paths(run, ex, rt) if p.status == "ret"]
     ok = bool(ps)
     d = ""
